@@ -16,6 +16,9 @@ CLAIMED = {
     "C13": ("Lean 4 theorems per stdlib function over all argument tuples (model mirrors each Function::call incl. param/finish order) + differential correspondence against Functions::stdlib().call + tree-sitter Node API as direct oracle",
             "Kernel-checked contracts for every argument tuple: eq (null comparable to anything, structural within a variant, error across variants, arity), is-null, not/and/or (folds, type errors), plus (sum iff < 2^32, FunctionFailed on overflow), format (escape round-trip, compositional placeholder step, missing/extra argument, lone brace), concat/length/is-empty/join (incl. arity), node freshness, syntax accessors equal to the tree, named-child-index position, registration table, unknown function. The regex behind `replace` is an oracle. Tie: 6000 (quick) generated calls per run incl. wrong arity/type, compared outcome-by-outcome; syntax accessors additionally against tree-sitter's Node API.",
             "DESIGN.md section 7, C13"),
+    "C14": ("Lean 4 round-trip theorem decode(toJson g) = g for all graphs (nested lists/sets by mutual structural induction) + pretty-print completeness/sortedness theorems + differential correspondence against serde_json::to_value and pretty_print()",
+            "Kernel-checked: decoding the JSON model reconstructs exactly the graph (C14_json_roundtrip), nodes once in index order with id = index, edges ascending by sink under the graph invariant, type tags, pretty attribute lines are a permutation of the attributes sorted by name (strictly, with unique names), block structure of the pretty form. Tie: generated graphs (0-40 nodes, > 8 edges per node, values nested to depth 3 with quotes/control/non-ASCII characters, syntax and graph node references) serialised by the real code and compared with the model; plus an independent decoder of the real JSON and a text round trip as direct oracle. JSON string escaping is serde_json's (oracle); Rust's {:?} escaping of non-ASCII is assumed printable.",
+            "DESIGN.md section 7, C14"),
 }
 
 NOT_YET = {}
